@@ -48,3 +48,26 @@ def repo():
     r.path = REPO
     _repo = r
     return r
+
+
+import contextlib
+
+
+@contextlib.contextmanager
+def fresh_instance():
+    """Within the block, repo() hands out a NEWLY imported set of the repository's modules (their own module
+    globals, class attributes, default-argument objects and caches), as a fresh interpreter would have them;
+    afterwards the usual instance is back.  For references that must not inherit anything an earlier call in
+    this process may have left behind."""
+    global _repo
+    repo()                                   # make sure the usual instance exists (and sys.path is set)
+    saved_repo = _repo
+    saved_mods = {name: sys.modules.pop(name) for name in MODULES if name in sys.modules}
+    _repo = None
+    try:
+        yield repo()
+    finally:
+        for name in MODULES:
+            sys.modules.pop(name, None)
+        sys.modules.update(saved_mods)
+        _repo = saved_repo
